@@ -58,6 +58,7 @@ def run(F, R):
     if GPU in F.adts:
         z2_gpu(F, R, M, roles)
         z3_z4_gpu(F, R, M, roles)
+    z2_cursor_commands(F, R, M, roles)
     z2_sound(F, R, M, roles)
     z2_misc(F, R, M, roles)
     z5_pcm(F, R, M, roles)
@@ -221,6 +222,51 @@ def z2_gpu(F, R, M, roles):
                 if (got == ['Ok']) != (have == want):
                     bad = 'response %#x expected %#x -> %s' % (have, want, got)
             R.check(bad is None, 'Z2', 'gpu:check_type', fn_site(F, b['id']), 'Ok iff the response type equals the expected type', 'check_type: %s' % bad)
+
+
+def z2_cursor_commands(F, R, M, roles):
+    """Which of the two cursor commands an operation sends: an operation that uploads a cursor image (it transfers a resource to
+    the host) defines the cursor with UPDATE_CURSOR (0x300), an operation that only passes a position moves it with MOVE_CURSOR
+    (0x301) - decided per public operation with the flag-taking private helper inlined and its constant flag folded."""
+    req_ids = set(b['id'] for b in gpu_helpers(F))
+    helpers = gpu_command_helpers(F)
+    cur = set(h for h, c in helpers.items() if c == 'update_cursor')
+    n = 0
+    for b in sorted(F.bodies.values(), key=lambda x: x['id']):
+        if b.get('impl_adt') != GPU or not F.handwritten(b) or b['kind'] != 'AssocFn' or not b.get('pub'):
+            continue
+        if not any(bl['term']['k'] == 'call' and bl['term'].get('fn') in cur for bl in b['blocks']):
+            continue
+        sg = supergraph(F, b['id'], opaque=lambda t, bb: bb['id'] not in cur, tag='c20cur')
+        try:
+            paths = [p for p in PathEnum(sg).run() if not p.panicked and err_variant(p.ret) == 'Ok']
+        except PathLimit as e:
+            R.abstain('Z2', '%s:cursor-command' % b['name'], str(e), fn_site(F, b['id']))
+            continue
+        n += 1
+        bad = None
+        for p in paths:
+            cmds, uploads = [], False
+            for e in p.effects:
+                if e[0] != 'call':
+                    continue
+                if helpers.get(e[2]) == 'transfer_to_host_2d':
+                    uploads = True
+                if e[2] in req_ids:
+                    cs = set(x[1] for a in e[3] for x in subterms(a) if x[0] == 'const' and isinstance(x[1], int) and x[2] == 'device::gpu::Command')
+                    if len(e) > 5 and e[5]:
+                        cs |= set(x[1] for a in e[5] if a is not None for x in subterms(a) if x[0] == 'const' and isinstance(x[1], int) and x[2] == 'device::gpu::Command')
+                    cmds.append(cs)
+            if not cmds or any(len(c) != 1 for c in cmds):
+                bad = 'cannot determine the single cursor command of a successful path: %s' % cmds
+                continue
+            want = 0x300 if uploads else 0x301
+            if any(c != {want} for c in cmds):
+                bad = 'an operation that %s sends cursor command %s, specification %#x (%s)' % (
+                    'uploads a cursor image' if uploads else 'only passes a position', [hex(x) for c in cmds for x in c], want, 'UPDATE_CURSOR' if uploads else 'MOVE_CURSOR')
+        R.check(bad is None and bool(paths), 'Z2', '%s:cursor-command' % b['name'], fn_site(F, b['id']), 'UPDATE_CURSOR iff the operation uploads an image, else MOVE_CURSOR',
+                '%s: %s' % (b['name'], bad or 'no successful path'))
+    R.count('cursor_ops', n)
 
 
 CMD_NAME = {'ResourceCreate2D': 'resource_create_2d', 'SetScanout': 'set_scanout', 'ResourceFlush': 'resource_flush', 'TransferToHost2D': 'transfer_to_host_2d',
